@@ -12,9 +12,10 @@ from bsvc import terms as tm
 from bsvc.terms import REAL, INT
 from bsvc.values import Arr, Obj
 
-PROPS = ['C19']
+PROPS = ['C19', 'C09']
 L = 'LineageCSimInterface.'
 
+field_hint('CellState.state', ndim=1, elem=REAL)
 field_hint('SingleCellSSAResult.timepoints', ndim=1, elem=REAL)
 field_hint('SingleCellSSAResult.simulation_result', ndim=2, elem=REAL)
 field_hint('SingleCellSSAResult.volume', ndim=1, elem=REAL)
@@ -127,7 +128,7 @@ def _(c):
     c.requires('v.volume > 0 and len(v.state) == self.num_species')      # the cell state carries a state vector (v.state_set == 1: hint)
     c.assume('forall(lambda k: U(k) > 0)', 'uniform_rv() == 0 excluded')
     main = c.loop(2)
-    main.also_modifies('kappa', 'ghost:pvals', 'self.c_current_state', 'self.c_propensity', 'self.c_results', 'self.c_volume_trace')
+    main.also_modifies('kappa', 'ghost:pvals', 'self.c_current_state', 'self.c_propensity', 'self.c_results', 'self.c_volume_trace', 'self.interface.c_param_values')
     main.invariant('current_index <= num_timepoints and num_timepoints == len(timepoints) and len(self.c_volume_trace) == num_timepoints and '
                    'self.c_results.shape[0] == num_timepoints and self.c_results.shape[1] == self.num_species and len(self.c_current_state) == self.num_species',
                    label='sizes')
@@ -137,6 +138,15 @@ def _(c):
     main.invariant('cell_divided == -1 and cell_dead == -1', label='alive-at-the-loop-head')
     main.invariant('rule_step == 0 or rule_step == 1', label='rule-flag')
     main.invariant('forall(lambda m: implies(0 <= m and m < current_index, self.c_volume_trace[m] > 0))', label='recorded-rows-have-positive-volume')
+    # ---- C09 for lineage cells: the rules see the grid step, run first, once per elapsed step
+    main.invariant('delta_t == timepoints[1] - timepoints[0] and self.interface.dt == delta_t', label='rules-use-the-grid-step')
+    XR = 'entry(self.c_current_state, 3)'
+    main.step('arr(%s) == vrfoldS(self.interface.c_repeat_rules[0], len(self.interface.c_repeat_rules[0]), head(arr(self.c_current_state), 2), '
+              'head(arr(self.interface.c_param_values), 2), head(current_volume, 2), head(current_time, 2), delta_t, real(head(rule_step, 2)))' % XR,
+              label='rules-first-in-declaration-order-with-the-grid-step')
+    main.step('forall(lambda m, s: implies(head(current_index, 2) <= m and m < current_index and 0 <= s and s < self.num_species, '
+              'self.c_results[m, s] == %s[s]))' % XR, label='rows-get-the-rule-updated-pre-event-state')
+    main.step('rule_step == ite(move_to_queued_time == 1, 1, 0)', label='rule-step-flag')
     DIVRULE = 'ifun("divrule", self.interface, self.c_current_state, ghost("pvals"), current_volume, current_time, initial_volume, initial_time)'
     DEATHRULE = 'ifun("deathrule", self.interface, self.c_current_state, ghost("pvals"), current_volume, current_time, initial_volume, initial_time)'
     EV = '(reaction_choice - self.num_reactions - self.num_volume_events)'
@@ -155,8 +165,12 @@ def _(c):
     rec.invariant('forall(lambda m: implies(entry(current_index, 3) <= m and m < current_index, timepoints[m] <= current_time))', label='recorded-rows-are-due')
     rec.invariant('forall(lambda m: implies(0 <= m and m < current_index, self.c_volume_trace[m] > 0))', label='recorded-rows-have-positive-volume')
     rec.invariant('len(self.c_volume_trace) == num_timepoints and self.c_results.shape[0] == num_timepoints and self.c_results.shape[1] == self.num_species', label='sizes')
+    rec.invariant('forall(lambda m, s: implies(entry(current_index, 3) <= m and m < current_index and 0 <= s and s < self.num_species, '
+                  'self.c_results[m, s] == self.c_current_state[s]))', label='rows')
     cp = c.loop(4)
     cp.invariant('self.c_results.shape[0] == num_timepoints and self.c_results.shape[1] == self.num_species', label='sizes')
+    cp.invariant('forall(lambda s: implies(0 <= s and s < species_index, self.c_results[current_index, s] == self.c_current_state[s]))', label='copied')
+    cp.invariant('forall(lambda m, s: implies(m != current_index or s >= species_index, self.c_results[m, s] == entry(self.c_results[m, s], 4)))', label='rest')
     up = c.loop(5)
     up.invariant('len(self.c_current_state) == self.num_species', label='sizes')
     ps = c.loop(6)
